@@ -105,6 +105,11 @@ var validRuleBlocks = []RuleSpec{
 	{Selector: routeService + ".GetMoreStill", Method: "POST", Template: "/cfg/still/{name}", Body: "file", ResponseBody: "file"},
 	{Selector: routeService + ".Get", Method: "PATCH", Template: "/cfg/get/{msg_value.string_value}/m", Body: "msg_value", Additional: []RuleSpec{{Method: "POST", Template: "/cfg/get2/{opt_string_value}", Body: "*"}}},
 	{Selector: benchService + ".UnaryPlain", Method: "POST", Template: "/cfg/plain", Body: "*"},
+	// overlapping siblings: literal, single-segment and multi-segment continuations of one prefix
+	{Selector: routeService + ".A", Method: "GET", Template: "/cfg/sib/{string_value}/info"},
+	{Selector: routeService + ".B", Method: "GET", Template: "/cfg/sib/{recursive.string_value=**}"},
+	{Selector: routeService + ".C", Method: "GET", Template: "/cfg/sib/fixed/info"},
+	{Selector: routeService + ".D", Method: "GET", Template: "/cfg/sib/{string_value}/*/deep:go"},
 }
 
 var badTemplates = []string{"cfg/x", "", "/cfg/**/x", "/cfg/{string_value", "/cfg/string_value}", "/cfg/{string_value}/{string_value}", "/cfg//x", "/cfg/x/", "/cfg/{}", "/cfg/{string_value=}", "/cfg/x:", "/cfg/a b", "/cfg/{1abc}"}
